@@ -24,6 +24,14 @@ CHECKS = {
     pkgs=["harness/c03_alloc"]),
 }
 
+# per-property fragments written next to the property modules: tools/manifest/<cxx>.json
+# {engine, technique, level, text, design_ref, note, pkgs:[...]}
+_fd = os.path.join(VERIF, "tools", "manifest")
+if os.path.isdir(_fd):
+    for _f in sorted(os.listdir(_fd)):
+        if _f.endswith(".json"):
+            CHECKS[_f[:-5].upper()] = json.load(open(os.path.join(_fd, _f)))
+
 NOT_YET = "check not built yet in this revision (planned in DESIGN.md section 4)"
 
 def main():
